@@ -1,6 +1,7 @@
 """C19: the consumer fetches exactly the assigned partitions, nothing else."""
 import kproto
 from val import T, dumps
+from props import common
 from props.common import boot_ops, brokers
 
 SLICE = "consumer Builder (with_topic / with_topic_partitions) -> assignment::from_map -> State::new (determine_partitions), Consumer subscriptions / seek / consume_message / last_consumed_message / poll / commit_consumed"
@@ -127,6 +128,7 @@ def make_case(rng, kind):
                 logs[(t, p)] = []
                 log_start[(t, p)] = st
     spec = {"brokers": brokers(nb), "topics": topics, "logs": logs, "log_start": log_start}
+    common.maybe_order(rng, spec)
     # ---- builder calls
     calls = []
     if kind == "none":
